@@ -1282,19 +1282,30 @@ func init() {
 func init() {
 	// ---- R9.replay-tolerates-later-state ------------------------------------------------------------------------
 	mutant(&Mutant{Name: "loader-tolerates-only-missing-key", Props: []string{"C09"}, File: "internal/server/aof.go",
-		Old:    "\treturn !(err == errKeyNotFound || err == errIDNotFound)\n",
-		New:    "\treturn err != errKeyNotFound\n",
+		Old:    "\treturn !(err == errKeyNotFound || err == errIDNotFound ||\n\t\terr == errHookChannelSameName)\n",
+		New:    "\treturn err != errKeyNotFound && err != errHookChannelSameName\n",
 		Expect: "R9.replay-tolerates-later-state", Key: "cmdFSET→errIDNotFound", Why: "an FSET captured during a rewrite whose object was deleted before the scan reached it stops the loader"})
 	mutant(&Mutant{Name: "drop-refused-while-hooked", Props: []string{"C09"}, File: fCrud,
 		Old:    "\t// >> Operation\n\tcol := s.cmdDROPop(key)\n",
 		New:    "\t// >> Operation\n\thooked := false\n\ts.hooks.Ascend(nil, func(v interface{}) bool {\n\t\thooked = hooked || v.(*Hook).Key == key\n\t\treturn true\n\t})\n\tif hooked {\n\t\treturn retwerr(errKeyHasHooksSet)\n\t}\n\tcol := s.cmdDROPop(key)\n",
 		Expect: "R9.replay-tolerates-later-state", Key: "cmdDROP→errKeyHasHooksSet", Why: "a new state-dependent refusal outside the loader's tolerated set"})
 	mutant(&Mutant{Name: "neutral-fatal-predicate-as-switch", Props: []string{"C09"}, File: "internal/server/aof.go", Neutral: true,
-		Old: "\treturn !(err == errKeyNotFound || err == errIDNotFound)\n",
-		New: "\tswitch err {\n\tcase errKeyNotFound, errIDNotFound:\n\t\treturn false\n\t}\n\treturn true\n",
+		Old: "\treturn !(err == errKeyNotFound || err == errIDNotFound ||\n\t\terr == errHookChannelSameName)\n",
+		New: "\tswitch err {\n\tcase errKeyNotFound, errIDNotFound, errHookChannelSameName:\n\t\treturn false\n\t}\n\treturn true\n",
 		Why: "the same predicate as a tagged switch"})
 	mutant(&Mutant{Name: "neutral-fatal-predicate-early-returns", Props: []string{"C09"}, File: "internal/server/aof.go", Neutral: true,
-		Old: "\treturn !(err == errKeyNotFound || err == errIDNotFound)\n",
-		New: "\tif err == errKeyNotFound {\n\t\treturn false\n\t}\n\tmissing := errIDNotFound == err\n\treturn !missing\n",
+		Old: "\treturn !(err == errKeyNotFound || err == errIDNotFound ||\n\t\terr == errHookChannelSameName)\n",
+		New: "\tif err == errKeyNotFound || errHookChannelSameName == err {\n\t\treturn false\n\t}\n\tmissing := errIDNotFound == err\n\treturn !missing\n",
 		Why: "the same predicate with early returns and a local"})
+}
+
+func init() {
+	mutant(&Mutant{Name: "loader-refuses-reused-hook-name", Props: []string{"C09"}, File: "internal/server/aof.go",
+		Old:    "\treturn !(err == errKeyNotFound || err == errIDNotFound ||\n\t\terr == errHookChannelSameName)\n",
+		New:    "\treturn !(err == errKeyNotFound || err == errIDNotFound)\n",
+		Expect: "R9.replay-tolerates-later-state", Key: "cmdSetHook→errHookChannelSameName", Why: "reverse of fix f2ba58a: SETHOOK x, DELHOOK x, SETCHAN x during a rewrite makes the log unloadable"})
+	mutant(&Mutant{Name: "hook-name-clash-error-made-on-the-spot", Props: []string{"C09"}, File: "internal/server/hooks.go",
+		Old:    "\t\t\treturn NOMessage, d, errHookChannelSameName\n",
+		New:    "\t\t\treturn NOMessage, d, errors.New(\"hooks and channels cannot share the same name\")\n",
+		Expect: "R9.replay-tolerates-later-state", Key: "cmdSetHook→New(", Why: "an error made on the spot equals no sentinel the loader tolerates"})
 }
